@@ -28,7 +28,7 @@ def table_case(draw, max_rows=12, max_cols=40, min_cols=2, with_cov=False):
         "cluster": draw(st.booleans()),  # closely spaced physical modes
         "empty_col": draw(st.booleans()),
         "cov": with_cov and draw(st.booleans()),
-        "fscale": draw(st.sampled_from([1.0, 10.0, 0.05, 250.0])),
+        "fscale": draw(st.sampled_from([1.0, 10.0, 0.05, 250.0, 1e-6, 1e5])),  # the unit of time is the user's (micro-seconds, days ...)
         "seed": draw(st.integers(0, 2**32 - 1)),
     }
 
